@@ -43,6 +43,9 @@ VARIABLES
 tvars == <<coreVars, l, skip, hdr, pend, tok, content, ptime, gone, stats>>
 
 JudgeLate == "clock" \notin DOMAIN hdr.meta \/ hdr.meta.clock = "paused"
+\* Light histories (very large backlogs): the actors report sizes only and the model abstains
+\* from everything but the batch-limit guards of C15.
+Light == "light" \in DOMAIN hdr.meta /\ hdr.meta.light
 ProjOf == IF "proj" \in DOMAIN hdr.meta THEN hdr.meta.proj ELSE Empty
 
 (***************************************************************************)
@@ -404,6 +407,27 @@ EvGuards(e) ==
               G("C16", C16_Attached) }
       [] OTHER -> { G("BIND", FALSE) }
 
+LightGuards(e) ==
+    { G("BIND", e.t >= now) } \cup
+    CASE e.k = "s.pull" -> { G("C15", e.max >= 1 => e.nout <= e.max) }
+      [] e.k = "ret" ->
+            IF e.c \in DOMAIN pend /\ pend[e.c].e.op = "Pull" /\ e.code = "OK"
+            THEN { G("C15", pend[e.c].e.max >= 1 => e.body.n <= pend[e.c].e.max),
+                   G("C15", e.body.n = 0 => (pend[e.c].e.ri \/ e.t - pend[e.c].e.t >= MinWait)) }
+            ELSE {}
+      [] e.k = "hang" -> { G("C07", FALSE) }
+      [] e.k \in {"panic", "abort"} -> { G("C17", FALSE) }
+      [] e.k = "end" -> { G("C07", pend = Empty) }
+      [] OTHER -> {}
+
+LightApply(e) ==
+    /\ now' = e.t
+    /\ UNCHANGED <<tmap, smap, T, S, torder, sorder, reg, pubs, tok, content, ptime, gone>>
+    /\ pend' =
+         CASE e.k = "inv" -> Put(pend, e.c, [e |-> e, from |-> l, ctrl |-> <<>>])
+           [] e.k \in {"ret", "cancel", "send", "lret"} -> IF e.c \in DOMAIN pend THEN Without(pend, e.c) ELSE pend
+           [] OTHER -> pend
+
 \* The model state of subscription e.si after the turn, with the recorded state adopted.
 SubPostState(e) ==
     LET s == S[e.si] IN
@@ -488,10 +512,10 @@ TraceNext ==
        THEN DoReset(e) /\ UNCHANGED stats
        ELSE IF skip
        THEN UNCHANGED <<coreVars, skip, hdr, pend, tok, content, ptime, gone, stats>>
-       ELSE LET gs == LateGuards(e) \cup EvGuards(e)
+       ELSE LET gs == IF Light THEN LightGuards(e) ELSE LateGuards(e) \cup EvGuards(e)
                 bad == Fatal(gs)
             IN IF bad = {}
-               THEN /\ EvApply(e)
+               THEN /\ IF Light THEN LightApply(e) ELSE EvApply(e)
                     /\ skip' = skip
                     /\ hdr' = IF e.k = "mark" /\ e.name = "drained" THEN Put(hdr, "drained", TRUE) ELSE hdr
                     /\ ("DRIFT" \in Failed(gs) =>
